@@ -244,8 +244,7 @@ func genSchema(r *hx.Rand) *SchemaDesc {
 		}
 	}
 	// features: hide a few own (non-interface) fields, and sometimes a whole object type that only
-	// hidden fields refer to. (Object types implementing interfaces are never hidden: whether the
-	// possible types of an interface respect features is C13's question, not this property's.)
+	// hidden fields refer to.
 	if r.Chance(1, 3) {
 		for ti := range d.Types {
 			t := &d.Types[ti]
@@ -265,8 +264,18 @@ func genSchema(r *hx.Rand) *SchemaDesc {
 			}
 		}
 		if r.Chance(1, 2) {
-			d.Types = append(d.Types, TypeDesc{Kind: "object", Name: "H0", Features: []string{"fx"},
-				Fields: []FieldDesc{{Name: "a", Type: Named("Int")}, {Name: "h", Type: Named("String")}}})
+			h := TypeDesc{Kind: "object", Name: "H0", Features: []string{"fx"},
+				Fields: []FieldDesc{{Name: "h", Type: Named("String")}}}
+			// sometimes the hidden type implements an interface (possible types follow the request's
+			// features since b106873): it is then a possible type only when "fx" is enabled
+			if len(g.ifaces) > 0 && r.Chance(1, 2) {
+				in := hx.Pick(r, g.ifaces)
+				h.Interfaces = []string{in}
+				for _, f := range ifaceFields[in] {
+					h.Fields = append(h.Fields, FieldDesc{Name: f.Name, Type: f.Type, Args: append([]InputDesc{}, f.Args...)})
+				}
+			}
+			d.Types = append(d.Types, h)
 			q := d.typ("Query")
 			q.Fields = append(q.Fields, FieldDesc{Name: "hidden", Type: Named("H0"), Features: []string{"fx"}})
 		}
